@@ -14,7 +14,10 @@ from mdsa.astutil import call_attr, kwarg, local_calls, norm, store_targets
 from mdsa.cfg import walk_local
 from mdsa.loader import AnalysisError
 
+from mdsa import match as MM
+
 from .common import Ctx, local_defs, node_of
+from .sem import F
 
 M = "ih5.manifest"
 S = "ih5.skeleton"
@@ -52,66 +55,136 @@ def run(P, rep, tier):
     rep.floor("C10.R5", 8)
 
 
+def _cond_literal_edges(f, literals):
+    out = []
+    for l in literals:
+        out += f.tests(l)
+    return out
+
+
 def r1_no_data(P, rep, ctx):
     fi = P.func(f"{S}.init_stub_skeleton")
-    g = ctx.cfg(fi)
+    f = F(ctx, fi)
+    g = f.g
+    ds, sk = fi.params[0], fi.params[1]
     stores = [(n, t) for n in g.nodes if n.kind == "stmt" and isinstance(n.stmt, ast.Assign) for t in n.stmt.targets if isinstance(t, ast.Subscript)]
     if len(stores) < 2:
         raise AnalysisError("C10.R1: placeholder stores not found in init_stub_skeleton")
     for n, t in stores:
-        rep.check(norm(n.stmt.value) == "h5py.Empty(None)", "C10.R1", fi.qual, f"placeholder stored at {norm(t)} is h5py.Empty(None)", fi.loc(n.stmt), construct=norm(n.stmt), message=f"init_stub_skeleton stores `{norm(n.stmt.value)}` into the stub: stubs must not carry data")
-    outer = [n for n in g.nodes if n.kind == "for" and norm(n.stmt.iter) == "skel.__root__.items()"]
-    inner = [n for n in g.nodes if n.kind == "for" and norm(n.stmt.iter) in ("v.attrs.keys()", "v.attrs")]
-    ok = len(outer) == 1 and len(inner) == 1 and g.every_path_passes([inner[0].idx], outer[0].idx, src=outer[0].idx, src_label="iter")
+        rep.check(norm(n.stmt.value) == "h5py.Empty(None)", "C10.R1", fi.qual, f"placeholder stored at {norm(t)} is h5py.Empty(None)", fi.loc(n.stmt), construct=f"placeholder value {norm(n.stmt.value)}", message=f"init_stub_skeleton stores `{norm(n.stmt.value)}` into the stub: stubs must not carry data")
+    outer = [n for n in g.nodes if n.kind == "for" and f.x(n.stmt.iter) == f"{sk}.__root__.items()" and isinstance(n.stmt.target, ast.Tuple) and len(n.stmt.target.elts) == 2]
+    ok = len(outer) == 1
+    kv = vv = None
+    inner = []
+    if ok:
+        kv, vv = norm(outer[0].stmt.target.elts[0]), norm(outer[0].stmt.target.elts[1])
+        inner = [n for n in g.nodes if n.kind == "for" and f.x(n.stmt.iter) in (f"{vv}.attrs.keys()", f"{vv}.attrs", f"list({vv}.attrs)", f"{vv}.attrs.items()")]
+        ok = len(inner) == 1 and f.hit_before(outer[0].idx, nodes=[inner[0].idx], src_edge=(outer[0].idx, "iter")) and f.hit_before(g.exit, nodes=[outer[0].idx])
     rep.check(ok, "C10.R1", fi.qual, "for every skeleton entry the attribute placeholders are written (no skip before the attribute loop)", fi.loc(), construct="attribute loop on every iteration",
               message="init_stub_skeleton can skip the attribute placeholders of a skeleton entry (e.g. `continue` for an existing group such as the root): the stub lacks attribute names the real record has")
-    astore = [n for n, t in stores if norm(t) == "ds[k].attrs[a]"]
-    rep.check(bool(astore), "C10.R1", fi.qual, "attribute placeholders are stored under the entry's own path and attribute name", fi.loc(), construct="attribute placeholder target", message="attribute placeholders are not stored at ds[k].attrs[a]")
-    gt = [t for t in g.nodes if t.kind == "test" and norm(t.exprs[0]) == "v.node_type == H5Type.group"]
-    dt = [t for t in g.nodes if t.kind == "test" and norm(t.exprs[0]) == "v.node_type == H5Type.dataset"]
-    cg = [n.idx for n in g.nodes if any(call_attr(c) == "create_group" for c in g.calls(n.idx))]
-    dsn = [n.idx for n, t in stores if norm(t) == "ds[k]"]
-    ok = bool(gt) and bool(dt) and bool(cg) and bool(dsn) and all(any(g.edge_dominates(t.idx, "T", x) for t in gt) for x in cg) and all(any(g.edge_dominates(t.idx, "T", x) for t in dt) for x in dsn)
+    if kv is None or not inner:
+        raise AnalysisError("C10.R1: skeleton loops of init_stub_skeleton not recognised")
+    av = norm(inner[0].stmt.target) if isinstance(inner[0].stmt.target, ast.Name) else norm(inner[0].stmt.target.elts[0])
+    astore = [n for n, t in stores if norm(t) == f"{ds}[{kv}].attrs[{av}]"]
+    rep.check(bool(astore) and f.hit_before(inner[0].idx, nodes=[n.idx for n in astore], src_edge=(inner[0].idx, "iter")), "C10.R1", fi.qual, "attribute placeholders are stored under the entry's own path and attribute name", fi.loc(), construct="attribute placeholder target", message="attribute placeholders are not stored at ds[k].attrs[a]")
+    gt = f.tests(f"{vv}.node_type == H5Type.group")
+    dt = f.tests(f"{vv}.node_type == H5Type.dataset")
+    cg = f.calls(f"{ds}.create_group({kv})", f"{ds}.require_group({kv})")
+    dsn = [n.idx for n, t in stores if norm(t) == f"{ds}[{kv}]"]
+    ok = bool(gt) and bool(dt) and bool(cg) and bool(dsn) and f.all_hit_before(cg, edges=gt) and f.all_hit_before(dsn, edges=dt) and all(f.hit_before(outer[0].idx, nodes=dsn, src_edge=e) for e in dt)
+    # a group entry is created unless it exists already
+    present = f.tests(f"{kv} in {ds}")
+    ok = ok and all(f.hit_before(outer[0].idx, nodes=cg, edges=present, src_edge=e) for e in gt)
     rep.check(ok, "C10.R1", fi.qual, "groups become groups and datasets become (empty) datasets", fi.loc(), construct="node kinds", message="init_stub_skeleton does not create groups for group entries and empty datasets for dataset entries")
-    ne = [t for t in g.nodes if t.kind == "test" and norm(t.exprs[0]) == "len(ds) or len(ds.attrs)"]
-    rep.check(bool(ne) and all(g.exit not in g.reach([b for b, l in g.succ[t.idx] if l == "T"]) for t in ne), "C10.R1", fi.qual, "a non-empty target is refused", fi.loc(), construct="empty target", message="init_stub_skeleton accepts a non-empty container")
-    fr = P.func(f"{S}.IH5Skeleton.for_record")
-    t = norm(fr.node)
-    rep.check("skel = {'/': SkeletonNodeInfo.for_node(rec['/'])}" in t and "rec.visititems(add_paths)" in t and "skel[node.name] = SkeletonNodeInfo.for_node(node)" in t, "C10.R1", fr.qual, "the skeleton lists the root and every node below it", fr.loc(), construct="for_record", message="IH5Skeleton.for_record does not record the root and all visited nodes")
-    fn = P.func(f"{S}.SkeletonNodeInfo.for_node")
-    t = norm(fn.node)
-    rep.check("for key in node.attrs.keys()" in t and "isinstance(node, IH5Dataset)" in t, "C10.R1", fn.qual, "each node records its kind and all attribute names", fn.loc(), construct="for_node", message="SkeletonNodeInfo.for_node does not record node kind and all attribute names")
+    r1 = f.refuses(f.tests(f"len({ds})"))
+    r2 = f.refuses(f.tests(f"len({ds}.attrs)"))
+    writes = cg + dsn + [n.idx for n in astore]
+    rep.check(r1 and r2 and f.all_hit_before(writes, nodes=f.test_nodes(f.tests(f"len({ds})"))) and f.all_hit_before(writes, nodes=f.test_nodes(f.tests(f"len({ds}.attrs)"))), "C10.R1", fi.qual, "a non-empty target is refused", fi.loc(), construct="empty target", message="init_stub_skeleton accepts a non-empty container")
+    frfi = P.func(f"{S}.IH5Skeleton.for_record")
+    fr = F(ctx, frfi)
+    rec = frfi.params[1]
+    rets = [v for _, v in fr.returns() if v is not None]
+    acc = None
+    for v in rets:
+        m = MM.match("cls(__root__=__s)", v)
+        if m is not None and isinstance(m["__s"], ast.Name):
+            acc = m["__s"].id
+    okf = acc is not None
+    if okf:
+        init = [d for k, d in local_defs(frfi).get(acc, []) if d is not None]
+        okf = len(init) == 1 and norm(init[0]) == f"{{'/': SkeletonNodeInfo.for_node({rec}['/'])}}"
+        cb = [c.args[0] for i, c, b in fr.call_sites(f"{rec}.visititems(__cb)")]
+        okf = okf and len(cb) == 1 and isinstance(cb[0], ast.Name) and cb[0].id in frfi.nested
+        if okf:
+            nf = frfi.nested[cb[0].id]
+            nff = F(ctx, nf)
+            npar = nf.params[1]
+            st = [(i, v, b) for i, v, b in nff.stores(f"{acc}[{npar}.name]")]
+            okf = bool(st) and all(norm(v) == f"SkeletonNodeInfo.for_node({npar})" for i, v, b in st) and nff.hit_before(nff.g.exit, nodes=[i for i, v, b in st])
+            okf = okf and fr.hit_before(fr.g.exit, nodes=[i for i, c, b in fr.call_sites(f"{rec}.visititems(__cb)")])
+    rep.check(okf, "C10.R1", frfi.qual, "the skeleton lists the root and every node below it", frfi.loc(), construct="for_record", message="IH5Skeleton.for_record does not record the root and all visited nodes")
+    fnfi = P.func(f"{S}.SkeletonNodeInfo.for_node")
+    fn = F(ctx, fnfi)
+    nd = fnfi.params[1]
+    okn = bool(fn.tests(f"isinstance({nd}, IH5Dataset)"))
+    comp = [x for x in ast.walk(fnfi.node) if isinstance(x, ast.DictComp) and len(x.generators) == 1 and norm(x.generators[0].iter) in (f"{nd}.attrs.keys()", f"{nd}.attrs") and not x.generators[0].ifs and norm(x.key) == norm(x.generators[0].target)]
+    loops = [n for n in fn.g.nodes if n.kind == "for" and fn.x(n.stmt.iter) in (f"{nd}.attrs.keys()", f"{nd}.attrs")]
+    rep.check(okn and (bool(comp) or bool(loops)), "C10.R1", fnfi.qual, "each node records its kind and all attribute names", fnfi.loc(), construct="for_node", message="SkeletonNodeInfo.for_node does not record node kind and all attribute names")
 
 
 def r2_identity(P, rep, ctx):
     fi = P.func(f"{MF}.create_stub")
-    d = local_defs(fi)
-    rep.check([norm(v) for k, v in d.get("user_block", []) if v is not None] == ["manifest.user_block.copy()"], "C10.R2", fi.qual, "the stub's user block is a copy of the real newest container's block (from the manifest)", fi.loc(), construct="stub user block", message="create_stub does not start from manifest.user_block.copy()")
-    ue = [v for k, v in d.get("ubext", []) if v is not None]
-    ok = len(ue) == 1 and isinstance(ue[0], ast.Call) and {k.arg: norm(k.value) for k in ue[0].keywords} == {"is_stub_container": "True", "manifest_uuid": "manifest.manifest_uuid", "manifest_hashsum": "hashsum_file(manifest_file)"}
+    f = F(ctx, fi)
+    g = f.g
+    mfile = fi.params[2]
+    MAN = f"IH5Manifest.parse_file({mfile})"
+    isb = f.call_sites("init_stub_base(__d, __u, __s)")
+    upd = f.call_sites("__e.update(__u)")
+    commits = f.call_sites("__d.commit_patch(__is_stub__=True)")
+    ok = bool(isb) and all(f.x_at(i, b["__u"]) == f"{MAN}.user_block.copy()" for i, c, b in isb)
+    rep.check(ok, "C10.R2", fi.qual, "the stub's user block is a copy of the real newest container's block (from the manifest)", fi.loc(), construct="stub user block", message="create_stub does not start from manifest.user_block.copy()")
+    ok = False
+    for i, c, b in upd:
+        e = f.xe_at(i, b["__e"])
+        if isinstance(e, ast.Call) and norm(e.func) == "IH5UBExtManifest":
+            kws = {k.arg: f.x_at(i, k.value) for k in e.keywords}
+            if kws == {"is_stub_container": "True", "manifest_uuid": f"{MAN}.manifest_uuid", "manifest_hashsum": f"hashsum_file({mfile})"} and f.x_at(i, b["__u"]) == f"{MAN}.user_block.copy()":
+                ok = True
     rep.check(ok, "C10.R2", fi.qual, "the stub links the given manifest by uuid and by the hash of the manifest file", fi.loc(), construct="stub manifest link", message="create_stub does not link the manifest by manifest_uuid and hashsum_file(manifest_file)")
-    g = ctx.cfg(fi)
-    seq = ["ubext.update(user_block)", "init_stub_base(ds, user_block, skeleton)", "ds.commit_patch(__is_stub__=True)"]
-    nodes = [[n.idx for n in g.nodes if n.kind == "stmt" and norm(n.stmt) == s] for s in seq]
-    ok = all(nodes) and all(g.every_path_passes(a, b[0]) for a, b in zip(nodes, nodes[1:])) and g.every_path_passes(nodes[-1], g.exit)
+    u_nodes, b_nodes, c_nodes = [i for i, c, b in upd], [i for i, c, b in isb], [i for i, c, b in commits]
+    same_ds = bool(isb) and bool(commits) and {norm(b["__d"]) for i, c, b in isb} == {norm(b["__d"]) for i, c, b in commits}
+    ok = all((u_nodes, b_nodes, c_nodes)) and same_ds and f.all_hit_before(b_nodes, nodes=u_nodes) and f.all_hit_before(c_nodes, nodes=b_nodes) and f.hit_before(g.exit, nodes=c_nodes)
     rep.check(ok, "C10.R2", fi.qual, "extension attached < stub structure + block installed < committed as stub", fi.loc(), construct="create_stub order", message="create_stub does not (attach ext, init_stub_base, commit as stub) in this order on every path")
-    rep.check([norm(v) for k, v in d.get("skeleton", []) if v is not None] == ["manifest.skeleton"] and [norm(v) for k, v in d.get("manifest", []) if v is not None] == ["IH5Manifest.parse_file(manifest_file)"], "C10.R2", fi.qual, "structure comes from the manifest's skeleton", fi.loc(), construct="skeleton source", message="create_stub does not use the skeleton of the given manifest file")
-    ib = P.func(f"{S}.init_stub_base")
-    t = norm(ib.node)
-    calls = [c for c in local_calls(ib.node) if call_attr(c) == "_set_ublock"]
-    ok = len(calls) == 1 and "init_stub_skeleton(target, src_skel)" in t
+    rep.check(bool(isb) and all(f.x_at(i, b["__s"]) == f"{MAN}.skeleton" for i, c, b in isb), "C10.R2", fi.qual, "structure comes from the manifest's skeleton", fi.loc(), construct="skeleton source", message="create_stub does not use the skeleton of the given manifest file")
+    ibfi = P.func(f"{S}.init_stub_base")
+    ib = F(ctx, ibfi)
+    tg, sub, ssk = ibfi.params[0], ibfi.params[1], ibfi.params[2]
+    sets = ib.call_sites(f"{tg}._set_ublock(__i, __u)")
+    sk = ib.calls(f"init_stub_skeleton({tg}, {ssk})")
+    ok = len(sets) == 1 and bool(sk)
     if ok:
-        c0 = calls[0]
-        a1 = c0.args[1] if len(c0.args) > 1 else None
-        up = kwarg(a1, "update") if isinstance(a1, ast.Call) and norm(a1.func) == "src_ub.copy" else None
+        i0, c0, b0 = sets[0]
+        a1 = ib.xe_at(i0, b0["__u"])
+        up = kwarg(a1, "update") if isinstance(a1, ast.Call) and norm(a1.func) == f"{sub}.copy" else None
         keys = {k.value: norm(v) for k, v in zip(up.keys, up.values)} if isinstance(up, ast.Dict) and all(isinstance(k, ast.Constant) for k in up.keys) else None
         # identity fields (record_uuid, patch_uuid, patch_index) must be kept; only the predecessor link and the
         # (recomputed at commit) payload hash may be reset
-        ok = norm(c0.args[0]) == "-1" and keys is not None and keys.get("prev_patch") == "None" and set(keys) <= {"prev_patch", "hdf5_hashsum"} and all(v == "None" for v in keys.values())
-    rep.check(ok, "C10.R2", ib.qual, "the stub keeps record uuid / patch uuid / patch index of the real newest container and only drops prev_patch", ib.loc(), construct="init_stub_base", message="init_stub_base does not install src_ub.copy(update={'prev_patch': None}) (identity of the stub differs from the real newest container)")
-    cr = P.func("ih5.record.IH5UserBlock.create")
-    rep.check("prev_patch=None if prev is None else prev.patch_uuid" in norm(cr.node) and "patch_index=0 if prev is None else prev.patch_index + 1" in norm(cr.node) and "record_uuid=uuid1() if prev is None else prev.record_uuid" in norm(cr.node), "C10.R2", cr.qual,
-              "a patch on the stub links to the stub's (= real newest) patch uuid with the next index", cr.loc(), construct="IH5UserBlock.create", message="IH5UserBlock.create does not link a new patch to prev.patch_uuid / index+1 / same record uuid")
+        ok = norm(b0["__i"]) == "-1" and keys is not None and keys.get("prev_patch") == "None" and set(keys) <= {"prev_patch", "hdf5_hashsum"} and all(v == "None" for v in keys.values())
+    rep.check(ok, "C10.R2", ibfi.qual, "the stub keeps record uuid / patch uuid / patch index of the real newest container and only drops prev_patch", ibfi.loc(), construct="init_stub_base", message="init_stub_base does not install src_ub.copy(update={'prev_patch': None}) (identity of the stub differs from the real newest container)")
+    crfi = P.func("ih5.record.IH5UserBlock.create")
+    cr = F(ctx, crfi)
+    pv = crfi.params[1]
+    okc = False
+    for x in ast.walk(crfi.node):
+        if isinstance(x, ast.Call) and norm(x.func) in ("cls", "IH5UserBlock"):
+            kws = {k.arg: k.value for k in x.keywords}
+
+            def alt(e, none_val, some_val):
+                return e is not None and (MM.equivalent_ifexp(e, pv, none_val, some_val))
+
+            okc = alt(kws.get("prev_patch"), "None", f"{pv}.patch_uuid") and alt(kws.get("patch_index"), "0", f"{pv}.patch_index + 1") and alt(kws.get("record_uuid"), "uuid1()", f"{pv}.record_uuid")
+    rep.check(okc, "C10.R2", crfi.qual,
+              "a patch on the stub links to the stub's (= real newest) patch uuid with the next index", crfi.loc(), construct="IH5UserBlock.create", message="IH5UserBlock.create does not link a new patch to prev.patch_uuid / index+1 / same record uuid")
 
 
 def r3_stub_owner(P, rep, ctx):
@@ -124,29 +197,32 @@ def r3_stub_owner(P, rep, ctx):
                     rep.check(fi.qual == f"{MF}.create_stub", "C10.R3", fi.qual, f"{k.arg}=True only in create_stub", fi.loc(c), construct=norm(c)[:100], message=f"{fi.qual} marks a container as stub ({k.arg}=True): only create_stub may")
     if n < 2:
         raise AnalysisError("C10.R3: stub markings not found in create_stub")
-    cp = P.func(f"{MF}.commit_patch")
-    d = local_defs(cp)
-    rep.check([norm(v) for k, v in d.get("is_stub", []) if v is not None] == ["kwargs.pop('__is_stub__', False)"], "C10.R3", cp.qual, "ordinary commits are never marked as stub", cp.loc(), construct="is_stub default", message="commit_patch does not default __is_stub__ to False")
-    ext = [c for c in local_calls(cp.node) if norm(c.func) == "IH5UBExtManifest"]
-    rep.check(len(ext) == 1 and norm(kwarg(ext[0], "is_stub_container") or ast.Constant(value=None)) == "is_stub", "C10.R3", cp.qual, "the committed block records exactly the requested stub flag", cp.loc(), construct="is_stub_container in commit", message="commit_patch does not record is_stub_container=is_stub")
+    cpfi = P.func(f"{MF}.commit_patch")
+    cp = F(ctx, cpfi)
+    pops = sorted({cp.x(c) for i, c, b in cp.call_sites("kwargs.pop('__is_stub__', ___)")})
+    rep.check(pops == ["kwargs.pop('__is_stub__', False)"], "C10.R3", cpfi.qual, "ordinary commits are never marked as stub", cpfi.loc(), construct="is_stub default", message="commit_patch does not default __is_stub__ to False")
+    ext = cp.call_sites("IH5UBExtManifest(___)")
+    exts = {cp.x_at(i, kwarg(c, "is_stub_container")) if kwarg(c, "is_stub_container") is not None else None for i, c, b in ext}
+    rep.check(exts == {"kwargs.pop('__is_stub__', False)"}, "C10.R3", cpfi.qual, "the committed block records exactly the requested stub flag", cpfi.loc(), construct="is_stub_container in commit", message="commit_patch does not record is_stub_container=is_stub")
 
 
 def r4_stub_base_only(P, rep, ctx):
     fi = P.func(f"{MF}._check_ublock")
     asserts = [x for x in walk_local(fi.node) if isinstance(x, ast.Assert)]
-    raises = [t for t in ctx.cfg(fi).nodes if t.kind == "test" and "is_stub_container" in norm(t.exprs[0])]
-    ok = any(norm(a.test) == "prev is None or ubext is None or (not ubext.is_stub_container)" for a in asserts) or bool(raises)
+    ff = F(ctx, fi)
+    raises = [t for t in ff.g.nodes if t.kind == "test" and "is_stub_container" in norm(t.exprs[0])]
+    ok = any(MM.equivalent(ff.xe(a.test), f"{fi.params[3]} is None or IH5UBExtManifest.get({fi.params[2]}) is None or (not IH5UBExtManifest.get({fi.params[2]}).is_stub_container)") for a in asserts) or bool(raises)
     rep.check(ok, "C10.R4", fi.qual, "a stub-marked container is only accepted as base (no predecessor)", fi.loc(), construct="stub-as-patch rejection", message="IH5MFRecord._check_ublock accepts a stub-marked container on top of another container")
     if asserts and not raises:
         rep.info("stub-only-as-base is enforced by an `assert` (removed under python -O): weak, not a violation")
+    from .c05 import stub_refusal
+
     mf = P.func(f"{MF}.merge_files")
-    g = ctx.cfg(mf)
-    sup = [n.idx for n in g.nodes if any(call_attr(c) == "merge_files" and isinstance(c.func.value, ast.Call) and norm(c.func.value.func) == "super" for c in g.calls(n.idx))]
-    tests = [t.idx for t in g.nodes if t.kind == "test" and norm(t.exprs[0]) == "any(map(is_stub, self.ih5_meta))"]
-    ok = bool(sup) and bool(tests) and all(g.exit not in g.reach([b for b, l in g.succ[t] if l == "T"]) and not (set(sup) & g.reach([b for b, l in g.succ[t] if l == "T"])) for t in tests) and all(g.every_path_passes(tests, s) for s in sup)
+    mff = F(ctx, mf)
+    sup = mff.calls("super().merge_files(___)")
+    ok, why = stub_refusal(P, ctx, mff, sup)
     rep.check(ok, "C10.R4", mf.qual, "a set containing a stub cannot be merged (refusal raises before the merge starts)", mf.loc(), construct="merge refusal", message="IH5MFRecord.merge_files can merge a file set that contains a stub")
-    st = mf.nested.get("is_stub")
-    rep.check(st is not None and [norm(x.value) for x in walk_local(st.node) if isinstance(x, ast.Return)] == ["ext is not None and ext.is_stub_container"], "C10.R4", mf.qual, "stub test = manifest extension present and flagged", mf.loc(), construct="is_stub", message="is_stub is not `ext is not None and ext.is_stub_container`")
+    rep.check(ok, "C10.R4", mf.qual, "stub test = manifest extension present and flagged", mf.loc(), construct="is_stub", message="is_stub is not `ext is not None and ext.is_stub_container`")
     from .common import require_total
 
     for q in (f"{MF}.create_stub", f"{MF}._fresh_manifest", f"{MF}.merge_files", f"{M}.IH5Manifest.from_userblock", f"{S}.IH5Skeleton.for_record", f"{S}.SkeletonNodeInfo.for_node"):
@@ -155,40 +231,72 @@ def r4_stub_base_only(P, rep, ctx):
 
 def r5_manifest_hash(P, rep, ctx):
     fi = P.func(f"{MF}.commit_patch")
-    g = ctx.cfg(fi)
-    d = local_defs(fi)
-    rep.check([norm(v) for k, v in d.get("mf", []) if v is not None] == ["self._fresh_manifest()"], "C10.R5", fi.qual, "one fresh manifest describing the current skeleton is built per commit", fi.loc(), construct="mf definition", message="commit_patch builds the manifest more than once / not from _fresh_manifest()")
-    hashes = [n.idx for n in g.nodes if any(norm(c.func) == "qualified_hashsum" and c.args and norm(c.args[0]) == "bytes(mf)" for c in g.calls(n.idx))]
-    saves = [n.idx for n in g.nodes if any(call_attr(c) == "save" and norm(c.func.value) == "mf" for c in g.calls(n.idx))]
+    f = F(ctx, fi)
+    g = f.g
+    fresh = [c for c in local_calls(fi.node) if MM.match("self._fresh_manifest()", c) is not None]
+    mfv = None
+    for n in g.nodes:
+        if n.kind == "stmt" and isinstance(n.stmt, (ast.Assign, ast.AnnAssign)) and n.stmt.value is not None and MM.match("self._fresh_manifest()", n.stmt.value) is not None:
+            t = n.stmt.targets[0] if isinstance(n.stmt, ast.Assign) else n.stmt.target
+            if isinstance(t, ast.Name):
+                mfv = t.id
+    rep.check(len(fresh) == 1 and mfv is not None, "C10.R5", fi.qual, "one fresh manifest describing the current skeleton is built per commit", fi.loc(), construct="mf definition", message="commit_patch builds the manifest more than once / not from _fresh_manifest()")
+    if mfv is None:
+        raise AnalysisError("C10.R5: the fresh manifest variable of commit_patch not found")
+    hashes = f.calls(f"qualified_hashsum(bytes({mfv}))")
+    saves_s = f.call_sites(f"{mfv}.save(__p)")
+    saves = [i for i, c, b in saves_s]
     rep.check(bool(hashes) and bool(saves), "C10.R5", fi.qual, "the hashed object (bytes(mf)) is the object that is saved (mf.save)", fi.loc(), construct="hash/save same object", message="the manifest whose bytes are hashed into the user block is not the manifest object written to disk")
-    stores = [n.idx for n in g.nodes if n.kind == "stmt" and any(norm(t).startswith("mf.") for _, t in store_targets(n.stmt))]
-    ok = not any(s in g.reach(hashes) for s in stores)
+    stores = [n.idx for n in g.nodes if n.kind == "stmt" and any(norm(t).startswith(mfv + ".") for _, t in store_targets(n.stmt))]
+    ok = not any(s_ in g.reach(hashes) for s_ in stores)
     rep.check(ok, "C10.R5", fi.qual, "every modification of the manifest (inherited / overriding extensions) happens before it is hashed", fi.loc(), construct="no store after hash", message="the manifest is modified after its hash was recorded in the user block: the manifest on disk does not match the hash in its container")
-    inh = [n.idx for n in g.nodes if n.kind == "stmt" and norm(n.stmt) == "mf.manifest_exts = self.manifest.manifest_exts"]
-    it = [t.idx for t in g.nodes if t.kind == "test" and norm(t.exprs[0]) == "self._manifest is not None"]
-    ovr = [n.idx for n in g.nodes if n.kind == "stmt" and norm(n.stmt) == "mf.manifest_exts = exts"]
-    ot = [t.idx for t in g.nodes if t.kind == "test" and norm(t.exprs[0]) == "exts is not None"]
-    ok = bool(inh) and bool(it) and bool(ovr) and bool(ot) and all(g.every_path_passes(inh, h, src=t, src_label="T") for t in it for h in hashes) and all(g.every_path_passes(ovr, h, src=t, src_label="T") for t in ot for h in hashes) and all(g.every_path_passes(inh, o) or True for o in ovr)
-    ok = ok and all(o in g.reach(inh) for o in ovr)  # override comes after inheritance
+    EXTS = "kwargs.pop('manifest_exts', None)"
+    inh = [i for i, v, b in f.stores(f"{mfv}.manifest_exts") if f.x_at(i, v) in ("self.manifest.manifest_exts", "self._manifest.manifest_exts")]
+    ovr = [i for i, v, b in f.stores(f"{mfv}.manifest_exts") if f.x_at(i, v) == EXTS]
+    has_prev = f.tests("self._manifest is not None")
+    given = f.tests(f"{EXTS} is not None")
+    ok = (all((inh, ovr, has_prev, given)) and f.all_hit_before(inh, edges=has_prev) and f.all_hit_before(ovr, edges=given)
+          and all(f.hit_before(h, nodes=inh, src_edge=e) for e in has_prev for h in hashes) and all(f.hit_before(h, nodes=ovr, src_edge=e) for e in given for h in hashes)
+          and not any(i_ in g.reach([o]) for o in ovr for i_ in inh))  # the inherited value never overwrites the passed one
     rep.check(ok, "C10.R5", fi.qual, "manifest extensions persist (inherited from the previous manifest) until overridden by the caller", fi.loc(), construct="manifest_exts inheritance", message="commit_patch does not inherit manifest_exts from the previous manifest / lets the inherited value win over the passed one")
-    ext = [c for c in local_calls(fi.node) if norm(c.func) == "IH5UBExtManifest"]
-    rep.check(len(ext) == 1 and norm(kwarg(ext[0], "manifest_uuid") or ast.Constant(value=None)) == "mf.manifest_uuid", "C10.R5", fi.qual, "the recorded manifest uuid is that of the saved manifest", fi.loc(), construct="manifest uuid", message="the user block records another manifest uuid than the saved manifest's")
-    rep.check(all(norm(c.args[0]) == "self._manifest_filepath(self._files[-1].filename)" for s in saves for c in g.calls(s) if call_attr(c) == "save"), "C10.R5", fi.qual, "the manifest is written next to the newest container", fi.loc(), construct="manifest path", message="manifest path is not derived from the newest container's file name")
-    mem = [n.idx for n in g.nodes if n.kind == "stmt" and norm(n.stmt) == "self._manifest = mf"]
-    rep.check(bool(mem) and g.every_path_passes(mem, g.exit), "C10.R5", fi.qual, "the record remembers the committed manifest", fi.loc(), construct="self._manifest", message="commit_patch does not update self._manifest on success")
-    sv = P.func(f"{M}.IH5Manifest.save")
-    rep.check("f.write(bytes(self))" in norm(sv.node), "C10.R5", sv.qual, "save writes exactly bytes(self)", sv.loc(), construct="IH5Manifest.save", message="IH5Manifest.save does not write bytes(self)")
-    fm = P.func(f"{MF}._fresh_manifest")
-    t = norm(fm.node)
-    fd = local_defs(fm)
-    skd = [norm(v) for k, v in fd.get("skel", []) if v is not None]
-    ubd = [norm(v) for k, v in fd.get("ub", []) if v is not None]
-    rep.check(skd == ["IH5Skeleton.for_record(self)"] and ubd == ["self._ublock(-1)"], "C10.R5", fm.qual, "the skeleton is always recomputed from the record as it is now (root attributes included)", fm.loc(), construct=f"skel = {skd}",
+    ext = f.call_sites("IH5UBExtManifest(___)")
+    uu = {f.x_at(i, kwarg(c, "manifest_uuid")) if kwarg(c, "manifest_uuid") is not None else None for i, c, b in ext}
+    hh = {f.x_at(i, kwarg(c, "manifest_hashsum")) if kwarg(c, "manifest_hashsum") is not None else None for i, c, b in ext}
+    rep.check(uu == {f"{mfv}.manifest_uuid"} and hh == {f"qualified_hashsum(bytes({mfv}))"}, "C10.R5", fi.qual, "the recorded manifest uuid / hash are those of the saved manifest", fi.loc(), construct="manifest uuid", message="the user block records another manifest uuid than the saved manifest's")
+    rep.check(bool(saves_s) and all(f.x_at(i, b["__p"]) == "self._manifest_filepath(self._files[-1].filename)" for i, c, b in saves_s), "C10.R5", fi.qual, "the manifest is written next to the newest container", fi.loc(), construct="manifest path", message="manifest path is not derived from the newest container's file name")
+    mem = [i for i, v, b in f.stores("self._manifest") if norm(v) == mfv]
+    rep.check(bool(mem) and f.hit_before(g.exit, nodes=mem), "C10.R5", fi.qual, "the record remembers the committed manifest", fi.loc(), construct="self._manifest", message="commit_patch does not update self._manifest on success")
+    svfi = P.func(f"{M}.IH5Manifest.save")
+    sv = F(ctx, svfi)
+    wr = sv.calls("__f.write(bytes(self))")
+    rep.check(bool(wr) and sv.hit_before(sv.g.exit, nodes=wr), "C10.R5", svfi.qual, "save writes exactly bytes(self)", svfi.loc(), construct="IH5Manifest.save", message="IH5Manifest.save does not write bytes(self)")
+    fmfi = P.func(f"{MF}._fresh_manifest")
+    fm = F(ctx, fmfi)
+    rets = [(i, v) for i, v in fm.returns() if v is not None]
+    got = []
+    for i, v in rets:
+        m = MM.match("IH5Manifest.from_userblock(__u, skeleton=__s, exts=__e)", fm.xe_at(i, v))
+        got.append(None if m is None else (norm(m["__u"]), norm(m["__s"]), norm(m["__e"])))
+    skd = [g_[1] if g_ else None for g_ in got]
+    rep.check(bool(got) and all(g_ is not None and g_[1] == "IH5Skeleton.for_record(self)" for g_ in got), "C10.R5", fmfi.qual, "the skeleton is always recomputed from the record as it is now (root attributes included)", fmfi.loc(), construct="skeleton recomputed",
               message=f"_fresh_manifest does not always recompute the skeleton from the current record (skel = {skd}): e.g. a patch that only changes root attributes keeps a stale skeleton, and a stub built from the manifest lacks those attribute names")
-    rep.check("ub = self._ublock(-1)" in t and "skel = IH5Skeleton.for_record(self)" in t and "IH5Manifest.from_userblock(ub, skeleton=skel, exts={})" in t, "C10.R5", fm.qual, "the fresh manifest describes the record's current skeleton and newest user block", fm.loc(), construct="_fresh_manifest", message="_fresh_manifest does not use the newest user block and the current skeleton")
-    fu = P.func(f"{M}.IH5Manifest.from_userblock")
-    t = norm(fu.node)
-    rep.check("ub_copy = ub.copy()" in t and "if k != IH5UBExtManifest.ext_name()" in t and "manifest_uuid=uuid1()" in t, "C10.R5", fu.qual, "the manifest embeds a copy of the user block without the (circular) manifest extension, under a fresh uuid", fu.loc(), construct="from_userblock", message="from_userblock changed shape")
+    rep.check(bool(got) and all(g_ == ("self._ublock(-1)", "IH5Skeleton.for_record(self)", "{}") for g_ in got), "C10.R5", fmfi.qual, "the fresh manifest describes the record's current skeleton and newest user block", fmfi.loc(), construct="_fresh_manifest", message="_fresh_manifest does not use the newest user block and the current skeleton")
+    fufi = P.func(f"{M}.IH5Manifest.from_userblock")
+    fu = F(ctx, fufi)
+    ubp = fufi.params[1]
+    rets = [(i, v) for i, v in fu.returns() if v is not None]
+    oku = bool(rets)
+    for i, v in rets:
+        m = MM.match("cls(manifest_uuid=uuid1(), user_block=__u, skeleton=__s, manifest_exts=__e)", v)
+        oku = oku and m is not None and isinstance(m["__u"], ast.Name)
+        if oku:
+            cv = m["__u"].id
+            cp_def = [d for k, d in local_defs(fufi).get(cv, []) if d is not None]
+            strip = [(j, val) for j, val, b in fu.stores(f"{cv}.ub_exts")]
+            oku = [norm(d) for d in cp_def] == [f"{ubp}.copy()"] and bool(strip) and all(isinstance(val, ast.DictComp) and len(val.generators) == 1 and norm(val.generators[0].iter) == f"{ubp}.ub_exts.items()" and len(val.generators[0].ifs) == 1 and MM.equivalent(val.generators[0].ifs[0], f"{norm(val.generators[0].target.elts[0])} != IH5UBExtManifest.ext_name()") for j, val in strip) and fu.hit_before(i, nodes=[j for j, val in strip])
+    rep.check(oku, "C10.R5", fufi.qual, "the manifest embeds a copy of the user block without the (circular) manifest extension, under a fresh uuid", fufi.loc(), construct="from_userblock", message="from_userblock changed shape")
     exc = [n for n in g.nodes if n.kind == "except"]
-    ok = bool(exc) and all(any(call_attr(c) == "_set_ublock" and norm(c.args[1]) == "old_ub" for m_ in g.reach([h.idx]) for c in g.calls(m_)) for h in exc)
+    olds = f.call_sites("self._set_ublock(-1, __o)")
+    restores = [i for i, c, b in olds if f.x_at(i, b["__o"]) == "self._ublock(-1)" or isinstance(b["__o"], ast.Name)]
+    ok = bool(exc) and all(any(r in g.reach([h.idx]) for r in restores) for h in exc)
     rep.check(ok, "C10.R5", fi.qual, "a failed commit restores the previous user block", fi.loc(), construct="restore on failure", message="commit_patch does not restore the old user block when the container commit fails")
